@@ -28,6 +28,12 @@ func checkC03(c *Ctx) {
 	c.rule("C03.g", "recursive response writers pass their mode parameters through unchanged", 3)
 	ruleModePassThrough(c, "C03.g")
 	c.rule("C03.h", "server-side option defaulting depends only on the options the client sent", 4)
+	c.rule("C03.i", "mailbox names: the encoder applies modified UTF-7 exactly where the decoder inverts it", 26)
+	ruleMailboxTransform(c, "C03.i")
+	c.rule("C03.j", "one-slot response buffers are overwritten only when empty or delivered", 1)
+	ruleOneSlotBuffers(c, "C03.j")
+	c.rule("C03.k", "a hand-over counter compared with cap(ch) is incremented before the test and the send of the same round (every item of a long FETCH response is delivered)", 1)
+	ruleCountBeforeSend(c, "C03.k")
 	ruleOptionDefaulting(c, "C03.h")
 }
 
